@@ -303,6 +303,11 @@ func checkNoBypassHeader(c *Ctx, res *report.Result, rule string) {
 	reach := flow.Reachable(roots, nil)
 	var hits []string
 	n := 0
+	hdr, okHdr := pkgConstString(c, "common", "RequestTranslationHeaderName")
+	if !okHdr {
+		res.Undec(rule, "common.RequestTranslationHeaderName", "", "constant not found")
+		return
+	}
 	for f := range reach {
 		if f.Blocks == nil {
 			continue
@@ -322,7 +327,7 @@ func checkNoBypassHeader(c *Ctx, res *report.Result, rule string) {
 			for _, ins := range b.Instrs {
 				for _, op := range ins.Operands(nil) {
 					if op != nil && *op != nil {
-						if s, ok := flow.ConstString(*op); ok && s == "s2s-request-translation" {
+						if s, ok := flow.ConstString(*op); ok && s == hdr {
 							hits = append(hits, shortFn(f)+" uses the bypass header name at "+instrPos(c.Prog, ins))
 						}
 					}
